@@ -251,6 +251,22 @@ func fieldCands(fd protoreflect.FieldDescriptor, dep int, o Opts) []Cand {
 			if len(bs) > 1 {
 				app("[x,{},y]", true, 1, 0, last)
 			}
+			// long lists of pairwise different elements (an element that aliases or repeats another one shows)
+			if dep == 0 {
+				for _, n := range []int{17, 61, 130} {
+					n := n
+					out = append(out, Cand{Label: fmt.Sprintf("[%d distinct elements]", n), Apply: func(m protoreflect.Message) {
+						l := m.Mutable(fd).List()
+						for i := 0; i < n; i++ {
+							e := l.NewElement()
+							if !distinctInto(e.Message(), i) {
+								bs[(i*7+i/5)%len(bs)].Apply(e.Message())
+							}
+							l.Append(e)
+						}
+					}})
+				}
+			}
 		} else {
 			al := ScalarAlphabet(fd, o.Top)
 			r := ScalarAlphabet(fd, Reduced)
@@ -302,6 +318,39 @@ func fieldCands(fd protoreflect.FieldDescriptor, dep int, o Opts) []Cand {
 		}
 	}
 	return out
+}
+
+// distinctInto stores a value derived from i in the first scalar field of m able to hold many values.
+func distinctInto(m protoreflect.Message, i int) bool {
+	fs := m.Descriptor().Fields()
+	for k := 0; k < fs.Len(); k++ {
+		fd := fs.Get(k)
+		if fd.IsList() || fd.IsMap() || fd.ContainingOneof() != nil {
+			continue
+		}
+		switch fd.Kind() {
+		case protoreflect.StringKind:
+			m.Set(fd, protoreflect.ValueOfString(fmt.Sprintf("e%d", i)))
+		case protoreflect.BytesKind:
+			m.Set(fd, protoreflect.ValueOfBytes([]byte(fmt.Sprintf("e%d", i))))
+		case protoreflect.Int32Kind, protoreflect.Sint32Kind, protoreflect.Sfixed32Kind:
+			m.Set(fd, protoreflect.ValueOfInt32(int32(i+1)))
+		case protoreflect.Int64Kind, protoreflect.Sint64Kind, protoreflect.Sfixed64Kind:
+			m.Set(fd, protoreflect.ValueOfInt64(int64(i+1)))
+		case protoreflect.Uint32Kind, protoreflect.Fixed32Kind:
+			m.Set(fd, protoreflect.ValueOfUint32(uint32(i+1)))
+		case protoreflect.Uint64Kind, protoreflect.Fixed64Kind:
+			m.Set(fd, protoreflect.ValueOfUint64(uint64(i+1)))
+		case protoreflect.FloatKind:
+			m.Set(fd, protoreflect.ValueOfFloat32(float32(i+1)))
+		case protoreflect.DoubleKind:
+			m.Set(fd, protoreflect.ValueOfFloat64(float64(i+1)))
+		default:
+			continue
+		}
+		return true
+	}
+	return false
 }
 
 // Choice picks candidate C of slot S.
